@@ -70,25 +70,57 @@ def alignment_branch(repo: Repo) -> RuleRun:
         )
         r.check(untouched.get("grading")._name == "own2", cn, "wires without coincidents untouched", "copy_neighbours changes a wire that has no coincident wire", cn.node, key=f"copy_neighbours:{label}:other")
 
-    # Axis.copy_grading
+    # Axis.copy_grading - with real (symbolic) Chop records: whatever way the copies are made, each chop handed to
+    # add_chop must equal Chop.copy_preserving(inverted=<anti-aligned>) of the neighbour's chop, in the right order
     cg = repo.func("items.wires.axis.Axis.copy_grading")
     axis_cls = repo.cls("items.wires.axis.Axis")
+    chop_cls = repo.cls("grading.chop.Chop")
+    fields = c01.chop_fields(repo)
+    cp = repo.func("grading.chop.Chop.copy_preserving")
+
+    def binop(op, x, y):
+        if isinstance(op, ast.Div) and x == 1 and isinstance(y, Sym):
+            return Sym(y.name[2:]) if y.name.startswith("1/") else Sym("1/" + y.name)
+        if isinstance(op, ast.Div) and x == 1 and y == 1:
+            return 1
+        return NO_MATCH
+
+    def mk_chop(name: str, given: str, preserve: str) -> Obj:
+        o = Obj(name, cls=chop_cls)
+        for f in fields:
+            o.set(f, None)
+        o.set(given, Sym(f"{name}.{given}"))
+        o.set("preserve", preserve)
+        o.set("results", {f: Sym(f"{name}.results.{f}") for f in fields if f != "preserve"})
+        return o
+
+    def snapshot(ch) -> Any:
+        if not (isinstance(ch, Obj) and ch._cls is chop_cls):
+            return repr(ch)
+        return tuple((f, ch.get(f) if ch.has(f) else "<unset>") for f in fields)
+
+    def base_hook(ev, call: ast.Call, nm):
+        if nm == "int" and len(call.args) == 1:
+            return ev.eval(call.args[0])
+        if nm == "max" and len(call.args) == 2:
+            vals = [ev.eval(x) for x in call.args]
+            syms = [v for v in vals if isinstance(v, Sym)]
+            if syms:
+                return syms[0]
+        return NO_MATCH
+
+    def reference(ch: Obj, inverted: bool):
+        ev = Evaluator(repo=repo, module=cp.module, call_hook=base_hook)
+        ev.binop_hook = binop
+        return snapshot(_run(ev, cp, [ch, inverted]))
+
     for label, aligned, nb_defined, self_defined in (("aligned", True, True, False), ("anti-aligned", False, True, False), ("undefined neighbour", True, False, False), ("already defined", True, True, True)):
-        chops = [Obj("chopA"), Obj("chopB"), Obj("chopC")]
+        chops = [mk_chop("chopA", "start_size", "start_size"), mk_chop("chopB", "count", "c2c_expansion"), mk_chop("chopC", "end_size", "end_size")]
         added: List[Any] = []
         graded = []
 
         def hook(ev, call: ast.Call, nm, added=added, graded=graded, aligned=aligned):
             if isinstance(call.func, ast.Attribute):
-                if call.func.attr == "copy_preserving":
-                    src = ev.eval(call.func.value)
-                    inv = False
-                    for kw in call.keywords:
-                        if kw.arg == "inverted":
-                            inv = ev.eval(kw.value)
-                    if call.args:
-                        inv = ev.eval(call.args[0])
-                    return ("copy", src._name, bool(inv))
                 if call.func.attr == "add_chop" and attr_chain(call.func.value) == "self.wires":
                     added.append(ev.eval(call.args[0]))
                     return None
@@ -97,7 +129,7 @@ def alignment_branch(repo: Repo) -> RuleRun:
                 if call.func.attr == "grade" and attr_chain(call.func.value) == "self":
                     graded.append(True)
                     return None
-            return NO_MATCH
+            return base_hook(ev, call, nm)
 
         this = Obj("axis", cls=axis_cls)
         this.set("is_defined", self_defined)
@@ -108,17 +140,31 @@ def alignment_branch(repo: Repo) -> RuleRun:
         nbw.set("chops", chops)
         nb.set("wires", nbw)
         this.set("neighbours", {nb})
-        res = _run(Evaluator(repo=repo, module=cg.module, call_hook=hook), cg, [this])
+        ev = Evaluator(repo=repo, module=cg.module, call_hook=hook)
+        ev.binop_hook = binop
+        res = _run(ev, cg, [this])
         if not nb_defined or self_defined:
             r.check(added == [] and not res, cg, f"{label}: nothing copied", f"Axis.copy_grading with {label} copies {added} / returns {res!r}", cg.node, key=f"copy_grading:{label}")
             continue
-        want = [("copy", "chopA", False), ("copy", "chopB", False), ("copy", "chopC", False)] if aligned else [("copy", "chopC", True), ("copy", "chopB", True), ("copy", "chopA", True)]
+        source = chops if aligned else list(reversed(chops))
+        want = [reference(c, not aligned) for c in source]
+        got = [snapshot(x) for x in added]
+        diff = ""
+        if got != want:
+            if len(got) != len(want):
+                diff = f"{len(got)} chops added instead of {len(want)}"
+            else:
+                for i, (g, w) in enumerate(zip(got, want)):
+                    if g != w:
+                        bad = [f"{fg[0]}={fg[1]} (expected {fw[1]})" for fg, fw in zip(g, w) if fg != fw] if isinstance(g, tuple) and isinstance(w, tuple) else [f"{g} instead of a Chop"]
+                        diff = f"chop #{i} (from {source[i]._name}): " + ", ".join(bad[:4])
+                        break
         r.check(
-            added == want,
+            got == want,
             cg,
-            f"{label}: chops copied as {added}",
-            f"Axis.copy_grading from an {label} neighbour adds {added}; expected {want} "
-            "(anti-aligned: sections in reverse order and each inverted; aligned: unchanged)",
+            f"{label}: the chops handed to add_chop equal copy_preserving(inverted={not aligned}) of the neighbour's chops, in {'the same' if aligned else 'reversed'} order",
+            f"Axis.copy_grading from an {label} neighbour: {diff}; expected the neighbour's chops {'in order' if aligned else 'in reverse order, each inverted'} with the "
+            "resolved count and the preserved quantity carried over (the copy must describe the same physical cell sequence with the same count)",
             cg.node,
             key=f"copy_grading:{label}",
         )
@@ -315,4 +361,25 @@ def axis_direction(repo: Repo) -> RuleRun:
 
 axis_direction.rule_id = "C04.AXIS-DIRECTION"
 
-RULES = [alignment_branch, simple_only_if_equal, preserve_carried, results_before_copy, axis_direction]
+def coincidence_complete(repo: Repo) -> RuleRun:
+    """'the same sequence on a shared edge from every block' needs every pair of coincident wires registered whatever
+    the relative orientation of the two blocks (all 12 x 12 wire pairs): the rule of C01.NEIGHBOUR-SYMMETRY."""
+    from ..report import rebrand
+
+    return rebrand(c01.neighbour_symmetry(repo), PROP, "C04.COINCIDENCE-COMPLETE")
+
+
+coincidence_complete.rule_id = "C04.COINCIDENCE-COMPLETE"
+
+
+def grade_idempotent(repo: Repo) -> RuleRun:
+    """The axis-level count and the wires' sequences stay in step only if grading again starts from scratch on both
+    levels: the rule of C01.GRADE-IDEMPOTENT."""
+    from ..report import rebrand
+
+    return rebrand(c01.grade_idempotent(repo), PROP, "C04.GRADE-IDEMPOTENT")
+
+
+grade_idempotent.rule_id = "C04.GRADE-IDEMPOTENT"
+
+RULES = [alignment_branch, simple_only_if_equal, preserve_carried, results_before_copy, axis_direction, coincidence_complete, grade_idempotent]
